@@ -84,6 +84,16 @@ func gen(tier string) []proto.Item {
 			items = append(items, proto.Item{Scn: s, Class: fmt.Sprintf("%s/neighbouring-flows-reply-first/ttl%d", v, t)})
 		}
 	}
+	// the wall clock is stepped (an hour forward, an hour back) while replies are outstanding - NTP, `date -s`, a resumed
+	// VM -; the monotonic clock runs on: round-trip times are elapsed times and do not move
+	for _, v := range proto.Variants {
+		for _, sec := range []int{3600, -3600} {
+			for _, at := range []int{1, 13} {
+				s := proto.Scn{Variant: v, First: 1, Last: 5, Dest: 4, IPIDBase: 500, EchoBase: 41, TimeoutMs: 300, DelayMs: 10, WallStepSec: sec, WallStepAtMs: at}
+				items = append(items, proto.Item{Scn: s, Class: fmt.Sprintf("%s/wall-clock-stepped-%+ds", v, sec)})
+			}
+		}
+	}
 	// the send call of probe k takes 15 ms (the socket waits for buffer space); the reply to probe k-1 arrives in the
 	// middle of that call: its round-trip time does not include the rest of the other probe's send
 	for _, v := range proto.Variants {
